@@ -132,6 +132,7 @@ fn main() {
 		"poisonsoak" => props::poisonfam::run(&cfg, true),
 		"orderfam" => props::orderfam::run(&cfg),
 		"seqfam" => props::seqfam::run(&cfg),
+		"tuplefam" => props::tuplefam::run(&cfg),
 		"tryfam" => props::tryfam::run(&cfg),
 		"blockfam" => props::tryfam::run_fam(&cfg, true),
 		_ => {
